@@ -251,6 +251,24 @@ func visitInstr(fr *frame, instr ssa.Instruction) continuation {
 		if sv, ok := x.(symv); ok && isString(instr.Type()) {
 			fr.setv(instr, fr.runeToString(sv))
 		} else {
+			if ss, isSym := x.(symStr); isSym {
+				if sl, ok := instr.Type().Underlying().(*types.Slice); ok {
+					if b, ok := sl.Elem().Underlying().(*types.Basic); ok && b.Kind() == types.Int32 {
+						// string -> []rune: UTF-8 decoding of the (possibly symbolic) bytes, as ranging does
+						it := &symStringIter{fr: fr, b: ss.B}
+						var out []value
+						for {
+							t := it.next()
+							if !t[0].(bool) {
+								break
+							}
+							out = append(out, t[2])
+						}
+						fr.setv(instr, out)
+						break
+					}
+				}
+			}
 			fr.setv(instr, conv(instr.Type(), instr.X.Type(), x))
 		}
 
